@@ -171,6 +171,8 @@ pub enum Edge {
     CloneVec { then: u8 },
     CloneEmpty { then: u8 },
     CloneEmptyIn { target: u8, then: u8 },
+    /// `Clone::clone_from` into a destination of kind `dst` (caps::foreign_vec_impl), then a follow-up on the result
+    CloneFrom { dst: u8, then: u8 },
     /// forget-family (C07): the inner removal/range edge with a forget stage, then a follow-up
     ForgetHandle { op: u8, idx: u8, follow: u8 },
     ForgetRange { splice: bool, a: u8, b: u8, pat: Pat, stage: u8, rn: u8, follow: u8 },
@@ -197,7 +199,7 @@ impl Edge {
             Edge::SwapRemove(..) => "swap_remove", Edge::Clear(..) => "clear", Edge::Get(..) => "get", Edge::IterAll(..) => "iter",
             Edge::Drain { .. } => "drain", Edge::Splice { .. } => "splice", Edge::DrainOverflow(..) => "drain-overflow",
             Edge::SpliceOverflow(..) => "splice-overflow", Edge::IterProto { .. } => "iter-proto", Edge::History { .. } => "history", Edge::Three { .. } => "three-vectors", Edge::DrainAdapt { .. } => "drain-adaptor", Edge::SpliceAdapt { .. } => "splice-adaptor", Edge::IterAdapt { .. } => "iter-adaptor", Edge::Cap(..) => "capacity",
-            Edge::CloneVec { .. } => "clone", Edge::CloneEmpty { .. } => "clone_empty", Edge::CloneEmptyIn { .. } => "clone_empty_in",
+            Edge::CloneVec { .. } => "clone", Edge::CloneEmpty { .. } => "clone_empty", Edge::CloneEmptyIn { .. } => "clone_empty_in", Edge::CloneFrom { .. } => "clone_from",
             Edge::ForgetHandle { .. } => "forget-handle", Edge::ForgetRange { .. } => "forget-range", Edge::ForgetRangeTyped { .. } => "forget-range-typed",
             Edge::WrongPush(..) => "wrong-push", Edge::WrongInsert(..) => "wrong-insert", Edge::WrongSpliceItem { .. } => "wrong-splice",
             Edge::WrongSwap(..) => "wrong-swap", Edge::WrongDowncast(..) => "wrong-downcast", Edge::TypeReports(..) => "type-reports",
